@@ -36,6 +36,7 @@ cfg("MC_exec_typeres.cfg", exec_consts(FieldAlpha="<- AlphaTypeRes", Aliases='= 
 cfg("MC_exec_widen.cfg", exec_consts(FieldAlpha="<- AlphaWiden", Aliases='= {""}', Conds='= {"P", "A"}', MaxSel="= 4", MaxOverlay="= 0"), EXEC_INV)
 cfg("MC_exec_falsy.cfg", exec_consts(FieldAlpha="<- AlphaFalsy", Aliases='= {"", "z"}', Conds='= {"", "B"}', MaxSel="= 3", FalsyOverlays="= TRUE"), EXEC_INV)
 cfg("MC_exec_long.cfg", exec_consts(FieldAlpha="<- AlphaLong", Aliases='= {""}', MaxSel="= 3", MaxOverlay="= 2"), EXEC_INV)
+cfg("MC_exec_objlit.cfg", exec_consts(FieldAlpha="<- AlphaObjLit", ArgOpts="<- ArgOptsObjLit", Aliases='= {"", "z"}', MaxSel="= 2", MaxOverlay="= 0"), EXEC_INV)
 cfg("MC_exec_lists.cfg", exec_consts(FieldAlpha="<- AlphaLists", Aliases='= {""}', MaxSel="= 3"), EXEC_INV)
 cfg("MC_exec_args.cfg", exec_consts(FieldAlpha="<- AlphaArgs", ArgOpts="<- ArgOptsStd", Aliases='= {"", "z"}', MaxSel="= 3", MaxOverlay="= 0"), EXEC_INV)
 cfg("MC_exec_frag.cfg", exec_consts(FieldAlpha="<- AlphaFrag", Aliases='= {""}', Conds='= {"T", "P", "A", "Query"}', MaxFrags="= 2", MaxSel="= 4", MaxOverlay="= 0"), EXEC_INV)
